@@ -1,6 +1,6 @@
 ------------------------------ MODULE MultiCases ------------------------------
 (* Group.remote_exec + MultiChannel on real gateways g0 .. g(n-1): every member echoes (its own id, 2 * item).
-   case: [n, err, len, members_match, each, pairs_ok, single, closed, ids, waitclose, waitclose_again]
+   case: [n, err, len, members_match, each, pairs_ok, single, closed, send_each_closed, ids, waitclose, all_closed_at_raise, waitclose_again]
    C02: send_each reaches every member once, receive_each returns one answer per member from the right conversation, an item
         sent to one member is answered by that member only.
    C07: the failure of one member surfaces as a RemoteError from MultiChannel.waitclose(), and only once. *)
@@ -15,9 +15,11 @@ Verdict(c) ==
   ELSE IF ~c.pairs_ok THEN "C02.multi.receive_each-pairs-an-answer-with-the-wrong-channel"
   ELSE IF c.single # <<"g1-worker", 14>> THEN "C02.multi.item-for-one-member-answered-by-another"
   ELSE IF ~c.closed THEN "C03.multi.waitclose-returned-with-open-members"
+  ELSE IF c.send_each_closed # "OSError" THEN "C03.multi.send_each-on-closed-members-not-refused"
   ELSE IF {c.ids[i] : i \in 1..Len(c.ids)} # WorkerIds(c.n) THEN "C02.multi.send_each-receive_each-not-one-answer-per-member"
   ELSE IF c.waitclose = "returned" THEN "C07.multi.failing-member-not-reported-by-waitclose"
   ELSE IF c.waitclose # "RemoteError:boom" THEN "C07.multi.waitclose-raised-something-else-than-the-members-RemoteError"
+  ELSE IF ~c.all_closed_at_raise THEN "C07.multi.waitclose-raised-before-every-member-was-closed"
   ELSE IF c.waitclose_again # "returned" THEN "C07.multi.remote-error-reported-twice"
   ELSE "ok"
 ASSUME PrintT(<<"verdicts", [i \in 1..Len(Cases) |-> Verdict(Cases[i])]>>)
